@@ -737,6 +737,13 @@ impl rustc_driver::Callbacks for Facts {
                                             let bytes = al.inspect_with_uninit_and_ptr_outside_interpreter(0..n);
                                             v.push(("bytes_hex", s(hex(bytes))));
                                             v.push(("offset", J::I(offset.bytes() as i128)));
+                                            // the value as rustc itself prints it for users (aggregates destructured): `[Op::Mul(0_usize, 1_usize), …]`
+                                            if n <= 8192 && !matches!(t.kind(), ty::Array(e, _) if e.is_integral()) {
+                                                let txt = ty::print::with_no_trimmed_paths!(ty::print::with_crate_prefix!(format!("{}", mir::Const::Val(val, t))));
+                                                if txt.len() <= 65536 {
+                                                    v.push(("value_text", s(txt)));
+                                                }
+                                            }
                                         }
                                     }
                                 }
